@@ -13,9 +13,16 @@
    [run_fw s b n]     firmware: setup statements s, then n passes of loop body b
    [run_py s b n]     CPython running the same statements
    [f_live_cells st]  cells in live heap blocks (= HEAP live_bytes / sizeof(T))
-   [p_live pst]       total length of the distinct list objects reachable from a name *)
+   [p_live pst]       total length of the distinct list objects reachable from a name
+   Device/DListLen.v: the parser's parse-time copy of every list ([track1]: how each statement updates it while the
+   script is parsed once), len() folded to the length of that copy ([f_len]: the folded constant, or the run-time
+   __redu_len when there is no copy), run-time scalar arguments `c + off` (c read from a sensor in every pass):
+   [run_fw_t s b cs]  firmware with FOLDED len(): setup statements s, then one pass of the (gated) body b per value of cs
+   [run_py_t s b cs]  CPython: len() is the length the list has at that moment
+   [len_ok s b]       the guard: single-owner shapes, only reads under run-time conditions, a constant remove hits the
+                      copy, the copies have the same lengths after the loop body as before it *)
 From Coq Require Import ZArith List Bool.
-From RV Require Import Device.DList Device.DListProg Proofs.DListP Proofs.DListProgP Proofs.C09P.
+From RV Require Import Device.DList Device.DListProg Device.DListLen Proofs.DListP Proofs.DListProgP Proofs.C09P Proofs.DListLenP.
 Import ListNotations.
 
 (* ============================================================== the helper templates *)
@@ -289,3 +296,76 @@ Theorem C09_leak_reassign_every_pass_refuted : forall n,
                  f_live_cells st = 3 + 3 * n /\ p_live pst = 3.
 Proof. exact leak_reassign_all. Qed.
 Print Assumptions C09_leak_reassign_every_pass_refuted.
+
+(* ============================================================== len() folded at transpile time *)
+
+(* scripts that index with len(): `x[len(y) + k]`, `x[k - len(y)]` next to append / remove of literals, of run-time
+   scalars and of list elements, `x = x`, permutations, gated reads.  Inside [len_ok], for EVERY sequence of run-time
+   values (one pass each): when CPython raises no exception the firmware - which uses the length of the parser's
+   copy wherever CPython uses the list's length - is memory-safe, holds exactly the cells of the live lists, and its
+   heap usage equals CPython's live data. *)
+Theorem C09_len_fold_safe_partial : forall setup body cs pst,
+  len_ok setup body = true -> run_py_t setup body cs = POk pst ->
+  exists st, run_fw_t setup body cs = Safe st /\ wf_heap st /\ tight st /\ f_live_cells st = p_live pst.
+Proof. exact len_fold_safe. Qed.
+Print Assumptions C09_len_fold_safe_partial.
+
+Theorem C09_len_fold_no_leak_partial : forall setup body cs c p1 p2,
+  len_ok setup body = true ->
+  run_py_t setup body cs = POk p1 -> run_py_t setup body (cs ++ [c]) = POk p2 -> p_live p1 = p_live p2 ->
+  exists s1 s2, run_fw_t setup body cs = Safe s1 /\ run_fw_t setup body (cs ++ [c]) = Safe s2 /\
+                f_live_cells s1 = f_live_cells s2.
+Proof. exact len_fold_no_leak. Qed.
+Print Assumptions C09_len_fold_no_leak_partial.
+
+Example C09_len_fold_nonvacuous :
+  len_ok len_ok_setup len_ok_body = true /\
+  exists pst, run_py_t len_ok_setup len_ok_body [2; 0; 3; 1]%Z = POk pst /\ p_live pst = 6.
+Proof. exact (conj len_ok_guard len_ok_python). Qed.
+Print Assumptions C09_len_fold_nonvacuous.
+
+(* the two facts about the parser's bookkeeping the guard rests on (for every copy, every gate): removing a RUN-TIME
+   value drops one entry of a non-empty copy (the remove is assumed to succeed), appending anything adds one *)
+Theorem C09_copy_remove_runtime : forall g t x off cur, t_cur t x = Some cur -> cur <> [] ->
+  exists c1, t_cur (track1 g t (TRemove x (TRt off))) x = Some c1 /\ S (length c1) = length cur.
+Proof. exact track_remove_runtime. Qed.
+Print Assumptions C09_copy_remove_runtime.
+
+Theorem C09_copy_append : forall g t x a cur, t_cur t x = Some cur ->
+  exists c1, t_cur (track1 g t (TAppend x a)) x = Some c1 /\ length c1 = S (length cur).
+Proof. exact track_append_any. Qed.
+Print Assumptions C09_copy_append.
+
+(* ---- refuted outside the guard: the folded length is stale, CPython never raises, the firmware reads out of bounds *)
+
+(* a = [1, 2, 3]   while True: (if c > 5: a.append(9)); mon.write(a[len(a) - 1]); (if c > 5: a.remove(9))   c = 0, 0, 0
+   - the copy is updated THROUGH the branch that never runs *)
+Theorem C09_stale_len_branch_refuted : exists cs pst,
+  run_py_t stale_branch_setup stale_branch_body cs = POk pst /\
+  run_fw_t stale_branch_setup stale_branch_body cs = Unsafe OutOfBounds.
+Proof. exact stale_branch_oob. Qed.
+Print Assumptions C09_stale_len_branch_refuted.
+
+(* a = [1, 2, 3, 4, 5]   while True: a.remove(a[0]); mon.write(a[len(a) - 1])
+   - the loop body is parsed once: len(a) is 4 in every pass, the list has 3 elements in the second *)
+Theorem C09_stale_len_pass_refuted : exists cs pst,
+  run_py_t stale_pass_setup stale_pass_body cs = POk pst /\
+  run_fw_t stale_pass_setup stale_pass_body cs = Unsafe OutOfBounds.
+Proof. exact stale_pass_oob. Qed.
+Print Assumptions C09_stale_len_pass_refuted.
+
+(* a = [1, 2, 3]; b = [4]   while True: (if c > 0: a, b = b, a); mon.write(a[len(a) - 1])   c = 1, 0
+   - a re-binding inside a branch does not reach the copies of the enclosing block *)
+Theorem C09_stale_len_rebind_refuted : exists cs pst,
+  run_py_t stale_rebind_setup stale_rebind_body cs = POk pst /\
+  run_fw_t stale_rebind_setup stale_rebind_body cs = Unsafe OutOfBounds.
+Proof. exact stale_rebind_oob. Qed.
+Print Assumptions C09_stale_len_rebind_refuted.
+
+(* a = [1, 2, 3]   while True: a.remove(c); a.remove(1); mon.write(a[len(a) - 1]); a.append(1); a.append(c)   c = 3
+   - remove(<run-time value>) drops the FIRST entry of the copy (1), remove(1) then finds nothing in the copy *)
+Theorem C09_stale_len_pop_refuted : exists cs pst,
+  run_py_t stale_pop_setup stale_pop_body cs = POk pst /\
+  run_fw_t stale_pop_setup stale_pop_body cs = Unsafe OutOfBounds.
+Proof. exact stale_pop_oob. Qed.
+Print Assumptions C09_stale_len_pop_refuted.
